@@ -99,7 +99,7 @@ class Keccak(object):
         needed = len(M)*8
         # handle NIST MSB alignment to Keccak LSB alignment for last byte
         # (see Keccak SHA-3 submission §6.1):
-        if bitlen:
+        if bitlen is not None:
             assert bitlen<=needed
             needed = bitlen
             if not self.duplexing:
